@@ -3,3 +3,5 @@
 pub mod tracer;
 pub mod transport;
 pub mod yadap;
+#[cfg(feature = "verif")]
+pub mod verif;
